@@ -85,6 +85,7 @@ structure FolderPlan where
   newCfg : Option (String × List String)     -- path and lines of the 1.1 descriptor file
   oldCfg : Option String                      -- the 1.0 descriptor file to remove
   moves : List Move
+  side : List Move := []                      -- side files the in-place route moves along (extract_*.json, run_matching.json)
 
 /-- observations.txt: rows `idx, [image, feature]*` regrouped by point index, labelled with the keypoints type, written
   sorted by index (observations_to_file) -/
@@ -140,7 +141,8 @@ def plan (p : Params) (t : Tree) : Except Err Plan := do
           if p.kp.isNone && name.isEmpty then throw (Err.assertion "name") else
           pure (some ty, some { newCfg := some (kdir ++ "/" ++ ty ++ "/keypoints.txt", cfgLines "# name, dtype, dsize" [name, dtn, ds]),
                                 oldCfg := some (kdir ++ "/keypoints.txt"),
-                                moves := (deepestFirst (filesUnder t kdir ".kpt")).map (fun r => ⟨kdir ++ "/" ++ r, kdir ++ "/" ++ ty ++ "/" ++ r⟩) })
+                                moves := (deepestFirst (filesUnder t kdir ".kpt")).map (fun r => ⟨kdir ++ "/" ++ r, kdir ++ "/" ++ ty ++ "/" ++ r⟩),
+                                side := [⟨kdir ++ "/extract_local_features.json", kdir ++ "/" ++ ty ++ "/extract_local_features.json"⟩] })
       | _ => throw (Err.assertion "keypoints.txt row"))
   -- descriptors
   let ddir := "reconstruction/descriptors"
@@ -166,16 +168,16 @@ def plan (p : Params) (t : Tree) : Except Err Plan := do
       match kpType with
       | none => throw (Err.assertion "keypoints_type")
       | some kt => pure (some ({ newCfg := none, oldCfg := none,
-                                 moves := (deepestFirst (filesUnder t mdir ".matches")).map (fun r => ⟨mdir ++ "/" ++ r, mdir ++ "/" ++ kt ++ "/" ++ r⟩) } : FolderPlan))
+                                 moves := (deepestFirst (filesUnder t mdir ".matches")).map (fun r => ⟨mdir ++ "/" ++ r, mdir ++ "/" ++ kt ++ "/" ++ r⟩),
+                                 side := [⟨mdir ++ "/run_matching.json", mdir ++ "/" ++ kt ++ "/run_matching.json"⟩] } : FolderPlan))
     else pure none)
   -- global features
   let gdir := "reconstruction/global_features"
   let gplan ← (match textOf t (gdir ++ "/global_features.txt") with
     | none => pure (none : Option FolderPlan)
     | some ls =>
-      match kpType, firstRow ls with
-      | none, _ => throw (Err.assertion "keypoints_type")
-      | some _, some [name, dt, ds] =>
+      match firstRow ls with
+      | some [name, dt, ds] =>
         match dtypeName dt with
         | none => throw (Err.valueError dt)
         | some dtn =>
@@ -184,8 +186,9 @@ def plan (p : Params) (t : Tree) : Except Err Plan := do
           pure (some { newCfg := some (gdir ++ "/" ++ ty ++ "/global_features.txt",
                                        cfgLines "# name, dtype, dsize, metric_type" [name, dtn, ds, p.gfMetric]),
                        oldCfg := some (gdir ++ "/global_features.txt"),
-                       moves := (deepestFirst (filesUnder t gdir ".gfeat")).map (fun r => ⟨gdir ++ "/" ++ r, gdir ++ "/" ++ ty ++ "/" ++ r⟩) })
-      | _, _ => throw (Err.assertion "global_features.txt row"))
+                       moves := (deepestFirst (filesUnder t gdir ".gfeat")).map (fun r => ⟨gdir ++ "/" ++ r, gdir ++ "/" ++ ty ++ "/" ++ r⟩),
+                       side := [⟨gdir ++ "/extract_global_features.json", gdir ++ "/" ++ ty ++ "/extract_global_features.json"⟩] })
+      | _ => throw (Err.assertion "global_features.txt row"))
   let obs ← (match textOf t "reconstruction/observations.txt" with
     | none => pure none
     | some ls =>
@@ -213,7 +216,7 @@ def upgradeInplace (p : Params) (t : Tree) : Except Err Tree := do
     let t := match f.newCfg with
       | some c => putText t c.1 c.2
       | none => t
-    f.moves.foldl moveFile t) t
+    (f.side ++ f.moves).foldl moveFile t) t
   pure (match pl.observations with
     | some ls => putText t "reconstruction/observations.txt" ls
     | none => t)
